@@ -21,7 +21,7 @@ claim("C13",
       "clampUint32, status, spanKind, buildSpanFlags; the typed attribute value table (Value: eight kinds, slice kinds element by element), KeyValues (one output per input, in order), links and spanEvents (one output per input in order, "
       "IDs copied into storage of their own - no two outputs share a backing array -, names, timestamps, dropped counts), the resource/scope grouping key of Spans; OTLP log record in both the HTTP and gRPC copies against one shared contract text "
       "(severity table, timestamps, text, event name, flags, dropped attribute count, trace/span ID presence, LogAttrs/LogAttrValues one output per input).",
-      _TB + "ReadOnlySpan accessors are assumed deterministic (interface contracts); log.Value accessors and Record.WalkAttributes are extern contracts on another module. Not decided: protobuf wire round trip, metric transforms, Zipkin, gRPC-vs-HTTP payload equality beyond the shared contract text.",
+      _TB + "ReadOnlySpan accessors are assumed deterministic (interface contracts); log.Value accessors and Record.WalkAttributes are extern contracts on another module. Not decided: protobuf wire round trip, gRPC-vs-HTTP payload equality beyond the shared contract text, Zipkin tags/annotations.",
       "DESIGN.md 4 C13")
 claim("C14",
       "Proof over the real retry loop (six generated copies, one contract text): success or a non-retryable error is returned at once and unchanged, the wait is max(throttle, backoff) >= throttle, "
@@ -140,3 +140,28 @@ claim("C11",
 _todo = "check not built yet in this session (engine exists; contracts for this property's functions still to be written)"
 for _p in []:
     na(_p, _todo)
+
+# ---- coverage added in the last build session (appended to the level texts above; the evidence files list every function)
+_ADD = {
+ "C01": " drainQueue returns only from the queue-empty branch after the final export made there; span.End's single-critical-section contract (C10) is part of this check.",
+ "C02": " pipeline.produce slot pinning, inserter.Instrument de-duplication by cache id, resolver.Aggregators/HistogramAggregators ask every pipeline exactly once, observable instruments register with each pipeline exactly the measures that pipeline returned.",
+ "C03": " TraceIDFromHex/SpanIDFromHex/decodeHex (length, lower-case hex, non-zero), TraceFlags, TraceContext.Inject (headers written, flag byte keeps the sampled bit only).",
+ "C04": " AddLink: a link is skipped only for an ended span or when it carried no attributes as given.",
+ "C05": " computeDistinct/computeDistinctReflect call structure (array sized by len, element i addressed for kvs[i]; the reflect storage view itself is assumed), Set.Value answer shape, Iterator.ToSlice = whole contents after rewinding.",
+ "C06": " ForceFlush buffer = queue capacity, timeoutExporter calls the wrapped exporter synchronously exactly once, Shutdown shuts the exporter chain down exactly once on every path of the winning call.",
+ "C08": " expoHistogram.cumulative (same point contents as delta, streams kept), expoBuckets.record/downscale are part of this check too.",
+ "C09": " randomIDGenerator (every ID returned is the one validated), processors' sampled checks (enqueueDrop/enqueueBlockOnQueueFull), TraceFlags.",
+ "C11": " every constructor/validator of Member and Property (decoded value is what is validated), Property.String shape (key=value exactly when it has a value).",
+ "C12": " cachedAggregator passes the cardinality limit and the view's filter to the builder unchanged, NewView criteria (every non-empty criterion must agree, wildcard path included).",
+ "C13": " OTLP metric transform (both copies: ResourceMetrics, ScopeMetrics, Metrics, metric, Gauge, Sum, Histogram, ExponentialHistogram, Summary, DataPoints, HistogramDataPoints, ExponentialHistogramDataPoints, buckets, Exemplars, Temporality, attribute values), log ResourceLogs grouping key and LogAttrValue kinds, trace InstrumentationScope/Resource, Zipkin IDs/kind/span context/name/timestamp/duration.",
+ "C14": " per-attempt HTTP closures (retryable error only for 429/502/503/504 or a temporary transport error; three clients), retry.wait (nil only when the timer fired; six copies), trace HTTP Stop (every call closes the stop channel through the Once), throttleDelay first-RetryInfo rule.",
+ "C15": " LoggerProvider (Logger/Shutdown/ForceFlush), TracerProvider.Tracer and its locked closure, TracerProvider.ForceFlush, MeterProvider (Meter/Shutdown/ForceFlush), ManualReader (Shutdown/Collect), log BatchProcessor.Shutdown exporter shutdown count.",
+ "C16": " every instrument constructor files its placeholder under an identity whose kind is the reflect type of that placeholder; all placeholders' setDelegate and Add/Record forwarders; unwrapCallback allocates one observer wrapper per invocation; SetMeterProvider/SetTracerProvider delegate once, then publish.",
+ "C17": " logger.newRecord copies the provider's limits before the first attribute is added; Clone is part of this check.",
+ "C18": " native (exponential) histogram conversion: each side under its own offset, scope info series (real scope name/version last, so they win), target info.",
+ "C19": " detect (every detector's answer merged or its error reported), Environment, NewSchemaless filter.",
+ "C20": " samplerFromEnv/parseTraceIDRatio table, NewSpanLimits, option closures of both log exporters (setting = exactly the value passed).",
+}
+for _pid, _t in _ADD.items():
+    if _pid in CLAIMED:
+        CLAIMED[_pid] = (CLAIMED[_pid][0] + " Also:" + _t, CLAIMED[_pid][1], CLAIMED[_pid][2])
